@@ -1626,4 +1626,339 @@ theorem wake_spawn_K (K i : Nat) (results : List (Nat × Val)) (pre post : List 
   · rw [hws2]
     exact Grow.addPid _ _ _
 
+/-! ## Part 7: the loop of a watcher ends -/
+
+/-- a result arrives for an armed `gen.multi`: its per-child callback goes on the ready queue -/
+theorem deliver_multi_armed (rec : Rec) (fid slot : Nat) (v : Val) (s : State) (f : Frame) (n : Nat) (results : List (Nat × Val))
+    (hf : s.frames.find? (fun g => decide (g.fid = fid)) = some f) (hk : f.k = .multi n results) (ha : f.armed = true) :
+    deliver rec (.frame fid slot) v s = ((), { s with ready := s.ready ++ [.resume (.multiSlot fid slot) v .none] }) := by
+  unfold deliver
+  simp only [bind, getS, hf, hk, ha, if_true]
+  rfl
+
+theorem multiCollect_record (rec : Rec) (fid slot : Nat) (v : Val) (s : State) (f : Frame) (n : Nat) (results : List (Nat × Val))
+    (hf : s.frames.find? (fun g => decide (g.fid = fid)) = some f) (hk : f.k = .multi n results)
+    (hlt : results.length + 1 < n) :
+    multiCollect rec fid slot v s =
+      ((), { s with frames := s.frames.map fun g => if g.fid = fid then { g with k := .multi n (results ++ [(slot, v)]) } else g }) := by
+  have hn : ¬ n ≤ results.length + 1 := by omega
+  unfold multiCollect
+  simp only [bind, getS, hf, hk]
+  simp [hn, setFrameK, modS]
+
+theorem multiCollect_last (rec : Rec) (fid slot : Nat) (v : Val) (s : State) (f : Frame) (n : Nat) (results : List (Nat × Val))
+    (hf : s.frames.find? (fun g => decide (g.fid = fid)) = some f) (hk : f.k = .multi n results)
+    (hge : n ≤ results.length + 1) :
+    multiCollect rec fid slot v s =
+      rec (.resume .pass (multiResult n (results ++ [(slot, v)])) f.parent)
+        { s with frames := s.frames.filter fun g => decide (g.fid ≠ fid) } := by
+  unfold multiCollect
+  simp only [bind, getS, hf, hk]
+  simp [hge, removeFrame, modS]
+
+/-- `manage_processes`' last part for a watcher that is complete: nothing to remove -/
+theorem manageTail_full_K (rec : Rec) (w : Watcher) (wt : Waiter) (s : State) (hn : (s.ws.map (·.uid)).Nodup) (hw : w ∈ s.ws)
+    (hok : WOkK w) (hfull : w.pids.length = w.np.toNat) : manageTail rec w.uid wt s = deliver rec wt .unit s := by
+  unfold manageTail
+  simp only [bind]
+  rw [getW_mem hn hw]
+  have hnp := hok.np
+  have hgt : ¬ ((w.pids.length : Int) > w.np) := by omega
+  erw [if_neg hgt]
+
+theorem ParkedK.frames_nodup {K i : Nat} {results : List (Nat × Val)} {P : List PK} {s : State} (h : ParkedK K i results P s) :
+    (s.frames.map (·.fid)).Nodup := by
+  obtain ⟨rest, hfr, hperm⟩ := h.frames
+  have hnd : (rest.map (·.fid)).Nodup := (hperm.map (·.fid)).nodup_iff.mpr (by rw [pkFrames_fids]; exact h.nodupF)
+  have hgt : ∀ x ∈ rest.map (·.fid), i + 2 < x := by
+    intro x hx
+    obtain ⟨g, hg, rfl⟩ := List.mem_map.mp hx
+    obtain ⟨q, hq, hgq | hgq⟩ := mem_pkFrames (hperm.mem_iff.mp hg)
+    · have := h.ids q hq; rw [hgq]; show i + 2 < q.mt; omega
+    · have := h.ids q hq; rw [hgq]; show i + 2 < q.sl; omega
+  rw [hfr]
+  simp only [List.map_cons]
+  apply List.nodup_cons.mpr
+  refine ⟨?_, List.nodup_cons.mpr ⟨?_, hnd⟩⟩
+  · intro hm
+    rcases List.mem_cons.mp hm with h1 | h1
+    · omega
+    · have := hgt _ h1; omega
+  · intro hm
+    have := hgt _ hm; omega
+
+/-- the `gen.multi` of `manage_watchers` is complete and armed: its result resumes `manage_watchers` through the
+    ready queue -/
+theorem multi_done_mk (n i : Nat) (vs : List Val) (k : Kernel) (a : Arbiter) (objs : List PObj) (ws : List Watcher)
+    (sleepers : List Sleeper) (tops : List TopFut) (dv : List (Nat × Val)) (nid : Nat) (log : List Obs) :
+    exec (n + 1) (.resume .pass (.list vs) (.frame (i + 1) 0))
+        ⟨k, a, objs, ws, [{ fid := i + 1, k := .manageWatchersTail false, parent := .top i, armed := true }], sleepers, tops,
+          [], dv, nid, log, false⟩ =
+      ((), ⟨k, a, objs, ws, [], sleepers, tops, [.resume (.manageWatchersTail false) (.list vs) (.top i)], dv, nid, log, false⟩) := by
+  rw [exec_resume_mk]
+  simp [runResume, deliver, bind, getS, removeFrame, enqueue, modS]
+
+/-- `manage_watchers` is resumed for the last time: its future completes, the callbacks run, the slot is released -/
+theorem check_finishes_mk (n i : Nat) (vs : List Val) (k : Kernel) (a : Arbiter) (objs : List PObj) (ws : List Watcher)
+    (sleepers : List Sleeper) (dv : List (Nat × Val)) (nid : Nat) (log : List Obs) :
+    settle (n + 4) ⟨k, a, objs, ws, [], sleepers, [{ tid := i, cbs := [.release, .watch], armed := true }],
+        [.resume (.manageWatchersTail false) (.list vs) (.top i)], dv, nid, log, false⟩ =
+      ((), ⟨k, { a with slot := none }, objs, ws, [], sleepers, [], [], (i, Val.unit) :: dv, nid, log, false⟩) := by
+  have e1 : (100000 : Nat) = 99999 + 1 := rfl
+  rw [show n + 4 = (n + 3) + 1 from rfl, settle_cons_mk]
+  simp only [runReady1]
+  rw [e1, exec_resume_mk]
+  simp [runResume, manageWatchersTail, deliver, deliverTop, finishTop, deliverCbs, bind, getS, getA, enqueue, modS, pure]
+  rw [show n + 3 = (n + 2) + 1 from rfl, settle_cons_mk]
+  simp [runReady1, runTopCb, setSlot, modA, modS]
+  rw [show n + 2 = (n + 1) + 1 from rfl, settle_cons_mk]
+  simp [runReady1, runTopCb, pure]
+  exact settle_nil _ _ rfl
+
+theorem spawnLoop_zero (rec : Rec) (u : Nat) (wt : Waiter) (s : State) : spawnLoop rec u 0 wt s = deliver rec wt .unit s := by
+  unfold spawnLoop
+  rfl
+
+/-- **the last timer of a watcher's loop fires**: no worker of that watcher is missing any more; the loop and the
+    `manage_processes` of the watcher end, the result goes to the `gen.multi` of `manage_watchers`.  If other loops are
+    still parked the result is recorded and the check stays parked; if it was the last one the `gen.multi`,
+    `manage_watchers` and the future of the check complete through the ready queue and the slot is released -/
+theorem wake_finish_K (K i : Nat) (results : List (Nat × Val)) (pre post : List PK) (p : PK) (s : State)
+    (hP : ParkedK K i results (pre ++ p :: post) s) (hd : DatK s) (hA : Acct [] (pre ++ p :: post) s)
+    (he : earliest s.sleepers = some p.timer) (hr : p.rem = 0) :
+    DatK (step s .wake) ∧ (step s .wake).ws = s.ws ∧ Acct [] (pre ++ post) (step s .wake) ∧
+    (pre ++ post ≠ [] → ParkedK K i (results ++ [(p.slot, Val.unit)]) (pre ++ post) (step s .wake)) ∧
+    (pre ++ post = [] → IdleK (step s .wake)) := by
+  have hpm : p ∈ pre ++ p :: post := by simp
+  have hPne : pre ++ p :: post ≠ [] := by simp
+  have hd0 := hd
+  obtain ⟨hb, hk, hn, hall⟩ := hd
+  obtain ⟨w, hw, hwu, hwl⟩ := hA.parked p hpm
+  have hfull : w.pids.length = w.np.toNat := by omega
+  obtain ⟨rest, hfr, hperm⟩ := hP.frames
+  have hidp := hP.ids p hpm
+  have hnid := hP.nid hPne
+  obtain ⟨hne, hoth, hndrest⟩ := pkIds_nodup_split hP.nodupF
+  obtain ⟨hsoth, hsnd⟩ := sids_nodup_split hP.nodupS
+  have hfnd := hP.frames_nodup
+  -- the stimulus
+  have hop := wake_op_K s p.timer p.sl p.slFrame hk he rfl (hP.find_sl hpm) rfl (by intro n r h; cases h)
+  let S1 : State := { s with k := { s.k.beginStep with now := max s.k.beginStep.now p.timer.deadline },
+                             sleepers := s.sleepers.filter (fun x => decide (x.sid ≠ p.timer.sid)),
+                             frames := s.frames.filter (fun g => decide (g.fid ≠ p.sl)) }
+  have hS1r : S1.ready = [] := hP.ready
+  have hd1 : DatK S1 := hd0.of_kernel (hk.beginStep.setNow_still _) rfl rfl rfl
+  -- the frames once the loop and the continuation of `manage_processes` are released
+  let rest2 := (rest.filter (fun g => decide (g.fid ≠ p.sl))).filter (fun g => decide (g.fid ≠ p.mt))
+  have hrest2 : rest2.Perm (pkFrames i (pre ++ post)) := rest_finish i pre post p rest hperm hP.nodupF
+  have h1sl : ¬ i + 1 = p.sl := by omega
+  have h2sl : ¬ i + 2 = p.sl := by omega
+  have h1mt : ¬ i + 1 = p.mt := by omega
+  have h2mt : ¬ i + 2 = p.mt := by omega
+  have hS1f : S1.frames = { fid := i + 1, k := .manageWatchersTail false, parent := .top i, armed := true } ::
+      { fid := i + 2, k := .multi K results, parent := .frame (i + 1) 0, armed := true } ::
+      rest.filter (fun g => decide (g.fid ≠ p.sl)) := by
+    show s.frames.filter _ = _
+    rw [hfr]
+    simp only [List.filter_cons, h1sl, h2sl, ne_eq, not_false_eq_true, decide_true, if_true]
+  -- 1: the loop ends, `manage_processes`' continuation is resumed
+  have hfindmt : S1.frames.find? (fun g => decide (g.fid = p.mt)) = some (p.mtFrame i) := by
+    have hmem : p.mtFrame i ∈ S1.frames := by
+      apply List.mem_filter.mpr
+      refine ⟨List.mem_of_find?_eq_some (hP.find_mt hpm), ?_⟩
+      simp [PK.mtFrame, hne]
+    have hnd1 : (S1.frames.map (·.fid)).Nodup := (List.Sublist.map _ List.filter_sublist).nodup hfnd
+    exact find_fid_of_mem hnd1 hmem
+  let S2 : State := { S1 with frames := S1.frames.filter (fun g => decide (g.fid ≠ p.mt)) }
+  have hS2f : S2.frames = { fid := i + 1, k := .manageWatchersTail false, parent := .top i, armed := true } ::
+      { fid := i + 2, k := .multi K results, parent := .frame (i + 1) 0, armed := true } :: rest2 := by
+    show S1.frames.filter _ = _
+    rw [hS1f]
+    simp only [List.filter_cons, h1mt, h2mt, ne_eq, not_false_eq_true, decide_true, if_true]
+    rfl
+  have hd2 : DatK S2 := hd1.of_kernel hd1.2.1 rfl rfl rfl
+  have hstep1 : spawnLoop (exec 99999) p.uid 0 (.frame p.mt 0) S1 =
+      ((), { S2 with ready := [Ready.resume (.manageTail p.uid) .unit (.frame (i + 2) p.slot)] }) := by
+    rw [spawnLoop_zero, deliver_armed_of (exec 99999) p.mt 0 .unit S1 (p.mtFrame i) hfindmt rfl (by intro n r h; cases h)]
+    rw [hS1r]
+    rfl
+  -- 2: `manage_processes` has nothing to remove; its result goes to the `gen.multi`
+  have hfind2 : S2.frames.find? (fun g => decide (g.fid = i + 2)) =
+      some { fid := i + 2, k := .multi K results, parent := .frame (i + 1) 0, armed := true } := by
+    rw [hS2f]
+    simp
+  have hstep2 : manageTail (exec 99999) p.uid (.frame (i + 2) p.slot) S2 =
+      ((), { S2 with ready := [Ready.resume (.multiSlot (i + 2) p.slot) .unit .none] }) := by
+    rw [← hwu, manageTail_full_K (exec 99999) w _ S2 hn hw (hall w hw).1 hfull,
+      deliver_multi_armed (exec 99999) (i + 2) p.slot .unit S2 _ K results hfind2 rfl rfl]
+    have hS2r : S2.ready = [] := hP.ready
+    rw [hS2r]
+    rfl
+  -- the first two rounds of the ready queue
+  have hrd0 : ({ S1 with ready := s.ready ++ [Ready.resume p.slFrame.k Val.unit p.slFrame.parent] } : State).ready =
+      Ready.resume (.spawnLoop p.uid 0) .unit (.frame p.mt 0) :: [] := by
+    show s.ready ++ _ = _
+    rw [hP.ready]
+    simp [PK.slFrame, hr]
+  have e1 : (100000 : Nat) = 99999 + 1 := rfl
+  have e2 : (99999 : Nat) = 99998 + 1 := rfl
+  have e3 : (99998 : Nat) = 99997 + 1 := rfl
+  have hS1' : ({ ({ S1 with ready := s.ready ++ [Ready.resume p.slFrame.k Val.unit p.slFrame.parent] } : State) with ready := [] } : State) = S1 := by
+    show ({ S1 with ready := [] } : State) = S1
+    cases hS : S1
+    simp_all
+  have hS2' : ({ ({ S2 with ready := [Ready.resume (.manageTail p.uid) .unit (.frame (i + 2) p.slot)] } : State) with ready := [] } : State) = S2 := by
+    show ({ S2 with ready := [] } : State) = S2
+    have : S2.ready = [] := hP.ready
+    cases hS : S2
+    simp_all
+  have hS3' : ({ ({ S2 with ready := [Ready.resume (.multiSlot (i + 2) p.slot) .unit .none] } : State) with ready := [] } : State) = S2 := by
+    show ({ S2 with ready := [] } : State) = S2
+    have : S2.ready = [] := hP.ready
+    cases hS : S2
+    simp_all
+  have hsettle : settle 100000 { S1 with ready := s.ready ++ [Ready.resume p.slFrame.k Val.unit p.slFrame.parent] } =
+      settle 99997 (multiCollect (exec 99999) (i + 2) p.slot .unit S2).2 := by
+    rw [e1, settle_cons 99999 ({ S1 with ready := s.ready ++ [Ready.resume p.slFrame.k Val.unit p.slFrame.parent] } : State)
+      _ [] hb hrd0]
+    simp only [runReady1]
+    rw [hS1', e1, exec_resume 99999 _ _ _ S1 hb]
+    simp only [runResume]
+    rw [hstep1, e2, settle_cons 99998 ({ S2 with ready := [Ready.resume (.manageTail p.uid) .unit (.frame (i + 2) p.slot)] } : State)
+      _ [] hb rfl]
+    simp only [runReady1]
+    rw [hS2', e1, exec_resume 99999 _ _ _ S2 hb]
+    simp only [runResume]
+    rw [hstep2, e3, settle_cons 99997 ({ S2 with ready := [Ready.resume (.multiSlot (i + 2) p.slot) .unit .none] } : State)
+      _ [] hb rfl]
+    simp only [runReady1]
+    rw [hS3', e1, exec_resume 99999 _ _ _ S2 hb]
+    simp only [runResume]
+  -- the accounting afterwards (the watchers are untouched)
+  have hAcct : ∀ t : State, t.ws = s.ws → Acct [] (pre ++ post) t := by
+    intro t ht
+    refine ⟨?_, ?_, ?_, fun q _ h => by cases h⟩
+    · intro q hq
+      rw [ht]
+      exact hA.parked q (by rcases List.mem_append.mp hq with h | h <;> simp [h])
+    · have hnu := hA.nodupU
+      rw [List.map_append, List.map_cons] at hnu
+      have g1 := List.nodup_append.mp hnu
+      have g2 := List.nodup_cons.mp g1.2.1
+      rw [List.map_append]
+      apply List.nodup_append.mpr
+      exact ⟨g1.1, g2.2, fun a ha b hb => g1.2.2 a ha b (by simp [hb])⟩
+    · intro w' hw' _ hnp
+      rw [ht] at hw'
+      by_cases hu : w'.uid = p.uid
+      · have : w' = w := same_uid_eq hn hw' hw (by rw [hu, hwu])
+        subst this
+        exact hfull
+      · apply hA.full w' hw' (by simp)
+        intro q hq
+        rcases List.mem_append.mp hq with h | h
+        · exact hnp q (by simp [h])
+        · rcases List.mem_cons.mp h with rfl | h
+          · exact fun he => hu he.symm
+          · exact hnp q (by simp [h])
+  have hcount := hP.count
+  simp only [List.length_append, List.length_cons] at hcount
+  by_cases hlast : pre ++ post = []
+  · -- the last loop: everything unwinds
+    have hpre : pre = [] := (List.append_eq_nil_iff.mp hlast).1
+    have hpost : post = [] := (List.append_eq_nil_iff.mp hlast).2
+    have hge : K ≤ results.length + 1 := by
+      rw [hpre, hpost] at hcount
+      simp at hcount
+      omega
+    have hr2nil : rest2 = [] := by
+      have := hrest2
+      rw [hlast] at this
+      exact List.Perm.eq_nil (by simpa [pkFrames] using this)
+    have hslnil : s.sleepers.filter (fun x => decide (x.sid ≠ p.timer.sid)) = [] := by
+      have := timers_fired pre post p s.sleepers hP.sleepers hP.nodupS
+      rw [hlast] at this
+      exact List.Perm.eq_nil (by simpa using this)
+    obtain ⟨vs, hvs⟩ := multiResult_units K (results ++ [(p.slot, Val.unit)]) (by
+      intro r hr'
+      rcases List.mem_append.mp hr' with h | h
+      · exact hP.units r h
+      · simp only [List.mem_cons, List.mem_nil_iff, or_false] at h
+        subst h; rfl)
+    have hmc := multiCollect_last (exec 99999) (i + 2) p.slot .unit S2 _ K results hfind2 rfl hge
+    let S5 : State := { S2 with frames := S2.frames.filter fun g => decide (g.fid ≠ i + 2) }
+    have hS5f : S5.frames = [{ fid := i + 1, k := .manageWatchersTail false, parent := .top i, armed := true }] := by
+      show S2.frames.filter _ = _
+      rw [hS2f, hr2nil]
+      simp
+    have hS5 : S5 = ⟨S1.k, s.a, s.objs, s.ws,
+        [{ fid := i + 1, k := .manageWatchersTail false, parent := .top i, armed := true }], [],
+        [{ tid := i, cbs := [.release, .watch], armed := true }], [], s.doneVals, s.nextId, s.log, false⟩ := by
+      have h0 : S5 = ⟨S5.k, S5.a, S5.objs, S5.ws, S5.frames, S5.sleepers, S5.tops, S5.ready, S5.doneVals, S5.nextId, S5.log,
+        S5.blocked⟩ := rfl
+      rw [h0, hS5f]
+      have h1 : S5.sleepers = [] := hslnil
+      have h2 : S5.tops = [{ tid := i, cbs := [.release, .watch], armed := true }] := hP.tops
+      have h3 : S5.ready = [] := hP.ready
+      have h4 : S5.blocked = false := hb
+      rw [h1, h2, h3, h4]
+    let S9 : State := ⟨S1.k, { s.a with slot := none }, s.objs, s.ws, [], [], [], [], (i, Val.unit) :: s.doneVals, s.nextId, s.log, false⟩
+    have hstep : stepM .wake s = ((), S9) := by
+      rw [stepM_eq _ _ hb, hop]
+      have hset : settle 100000 { S1 with ready := s.ready ++ [Ready.resume p.slFrame.k Val.unit p.slFrame.parent] } = ((), S9) := by
+        rw [hsettle, hmc, hvs]
+        show settle 99997 (exec 99999 (.resume .pass (.list vs) (.frame (i + 1) 0)) S5).2 = _
+        rw [hS5, show (99999 : Nat) = 99998 + 1 from rfl, multi_done_mk 99998 i vs]
+        exact check_finishes_mk 99993 i vs _ _ _ _ _ _ _ _
+      rw [stepTail_eq _ (by rw [hset]; exact hP.loopStop), hset]
+    have hres : step s .wake = S9 := by unfold step; rw [hstep]
+    rw [hres]
+    refine ⟨⟨rfl, hk.beginStep.setNow_still _, hn, hall⟩, rfl, hAcct S9 rfl, fun h => absurd hlast h, ?_⟩
+    intro _
+    exact ⟨rfl, rfl, rfl, rfl, rfl, hP.loopStop, hP.stopping, hP.restarting, hP.watchers⟩
+  · -- other loops are still parked: the result is recorded
+    have hlen : 0 < (pre ++ post).length := List.length_pos_iff.mpr hlast
+    simp only [List.length_append] at hlen
+    have hlt : results.length + 1 < K := by omega
+    have hmc := multiCollect_record (exec 99999) (i + 2) p.slot .unit S2 _ K results hfind2 rfl hlt
+    let S4 : State := { S2 with frames := S2.frames.map fun g =>
+      if g.fid = i + 2 then { g with k := .multi K (results ++ [(p.slot, Val.unit)]) } else g }
+    have hS4f : S4.frames = { fid := i + 1, k := .manageWatchersTail false, parent := .top i, armed := true } ::
+        { fid := i + 2, k := .multi K (results ++ [(p.slot, Val.unit)]), parent := .frame (i + 1) 0, armed := true } :: rest2 := by
+      show S2.frames.map _ = _
+      rw [hS2f]
+      have hmap : rest2.map (fun g => if g.fid = i + 2 then { g with k := Kont.multi K (results ++ [(p.slot, Val.unit)]) } else g) = rest2 := by
+        conv => rhs; rw [← List.map_id rest2]
+        apply List.map_congr_left
+        intro g hg
+        obtain ⟨q, hq, hgq | hgq⟩ := mem_pkFrames (hrest2.mem_iff.mp hg)
+        · have := hP.ids q (by rcases List.mem_append.mp hq with h | h <;> simp [h])
+          have : ¬ g.fid = i + 2 := by rw [hgq]; show ¬ q.mt = _; omega
+          simp [this]
+        · have := hP.ids q (by rcases List.mem_append.mp hq with h | h <;> simp [h])
+          have : ¬ g.fid = i + 2 := by rw [hgq]; show ¬ q.sl = _; omega
+          simp [this]
+      simp only [List.map_cons, hmap]
+      simp
+    have hstep : stepM .wake s = ((), S4) := by
+      rw [stepM_eq _ _ hb, hop]
+      have hset : settle 100000 { S1 with ready := s.ready ++ [Ready.resume p.slFrame.k Val.unit p.slFrame.parent] } = ((), S4) := by
+        rw [hsettle, hmc]
+        exact settle_nil 99996 S4 hP.ready
+      rw [stepTail_eq _ (by rw [hset]; exact hP.loopStop), hset]
+    have hres : step s .wake = S4 := by unfold step; rw [hstep]
+    rw [hres]
+    refine ⟨hd2.of_kernel hd2.2.1 rfl rfl rfl, rfl, hAcct S4 rfl, ?_, fun h => absurd h hlast⟩
+    intro _
+    refine ⟨⟨rest2, hS4f, hrest2⟩, timers_fired pre post p s.sleepers hP.sleepers hP.nodupS, hP.tops, hP.ready, ?_, ?_, ?_,
+      hndrest, hsnd, hP.slot, hP.loopStop, hP.stopping, hP.restarting, hP.watchers, trivial⟩
+    · simp only [List.length_append, List.length_cons, List.length_nil]; omega
+    · intro r hr'
+      rcases List.mem_append.mp hr' with h | h
+      · exact hP.units r h
+      · simp only [List.mem_cons, List.mem_nil_iff, or_false] at h
+        subst h; rfl
+    · intro q hq
+      exact hP.ids q (by rcases List.mem_append.mp hq with h | h <;> simp [h])
+
 end Circus.Core
